@@ -634,6 +634,16 @@ func (e *Engine) callOpaque(st *State, fr *Frame, x *ssa.Call, fv ssa.Value, f V
 					}
 				}
 			}
+			if cb, ok := root.spec.Callbacks[tname]; ok {
+				// assumed behaviour of a callback stored in a field: a condition over its results r0, r1, ...
+				env := map[string]Val{}
+				for i, r := range res {
+					env[fmt.Sprintf("r%d", i)] = r
+				}
+				cc := &specCtx{e: e, st: st, env: env, heaps: st.heaps, oldHeaps: st.heaps, pkg: root.fn.Pkg}
+				st.assume(cc.evalBool(cb.E))
+				e.Assumptions["callback "+tname+" called in "+root.fn.String()+" is assumed to satisfy: "+cb.Text] = true
+			}
 			st.calls = append(st.calls, callRec{target: tname, args: args, res: res, seq: len(st.calls)})
 			return tupleOf(res)
 		}
@@ -731,6 +741,13 @@ func (e *Engine) applyContractSig(st *State, fr *Frame, x *ssa.Call, name string
 					e.havocGuarded(st, rp.L.Ref, gl)
 					atomicGuards = append(atomicGuards, gl)
 				}
+				// the caller's lock invariant describes the shared structure at every instant it is unlocked
+				if root := st.frames[0]; root.spec != nil {
+					ic := &specCtx{e: e, st: st, env: e.entryEnv(root), heaps: st.heaps, oldHeaps: st.heaps, pkg: root.fn.Pkg}
+					for _, li := range root.spec.LockInvs {
+						st.assume(ic.evalBool(li.E))
+					}
+				}
 				atomicPre = copyHeaps(st.heaps)
 				rpc := rp
 				atomicRecv = &rpc
@@ -787,6 +804,17 @@ func (e *Engine) applyContractSig(st *State, fr *Frame, x *ssa.Call, name string
 			st.assume(ac.evalBool(a.E))
 		}
 		st.cs = append(st.cs, critSection{mode: "call", mutex: name, pre: atomicPre, post: copyHeaps(st.heaps)})
+		// ... and the step must re-establish the caller's lock invariant
+		if root := st.frames[0]; root.spec != nil {
+			ic := &specCtx{e: e, st: st, env: e.entryEnv(root), heaps: st.heaps, oldHeaps: st.heaps, pkg: root.fn.Pkg, goal: true}
+			for i, li := range root.spec.LockInvs {
+				lbl := li.Label
+				if lbl == "" {
+					lbl = fmt.Sprint(i)
+				}
+				e.oblige(st, "lockinv@call", lbl+"."+shortName(name), ord, ic.evalBool(li.E), "invariant of the guarded state holds after the atomic step "+name+": "+li.Text, pos)
+			}
+		}
 	}
 	for _, w := range spec.Witness {
 		wt := e.fresh(name+".w_"+w.Name, IntS) // existential witness
@@ -970,4 +998,11 @@ func (e *Engine) chanInterference(st *State) {
 	c := Var("q_ch", IntS)
 	st.assume(Forall([]*Term{c}, [][]*Term{{Select(nh, c)}}, Implies(Select(h, c), Select(nh, c))))
 	st.heaps[chanHeap] = nh
+}
+
+func shortName(name string) string {
+	if i := strings.LastIndex(name, "."); i >= 0 {
+		return name[i+1:]
+	}
+	return name
 }
